@@ -59,8 +59,8 @@ macro_rules! parts {
             name: "print-lockstep",
             sys: $sys,
             cfgs: match tier {
-                Tier::Quick => cfgs(&[(1, 1), (1, 2), (2, 2), (3, 3), (2, 3)], &[None]),
-                Tier::Thorough => cfgs(&[(1, 1), (1, 2), (2, 1), (2, 2), (3, 2), (2, 3), (3, 3), (4, 2)], &[None]),
+                Tier::Quick => cfgs(&[(1, 1), (3, 1), (1, 2), (2, 2), (3, 3), (2, 3)], &[None]),
+                Tier::Thorough => cfgs(&[(1, 1), (1, 2), (2, 1), (3, 1), (2, 2), (3, 2), (2, 3), (3, 3), (4, 2)], &[None]),
             },
             alphabet: &alpha,
             depth: tier.pick(4, 5),
